@@ -10,9 +10,13 @@
    real sockets by tools/props/c12.py):
      (O1) TLS/Unix: a read BEGUN after the local close of the socket returns no data (EOF or
           an error).  NOT assumed for SSH: a paramiko channel still hands out the (finite) data
-          it had buffered before the transport was closed, so the worker-exit BOUND is proved
-          for TLS/Unix only; that the worker HAS exited when close() returns (the join) is
-          proved for all three;
+          it had buffered before the transport was closed.  For SSH the channel buffer is
+          explicit instead (field [chan], label [Arrive]):
+     (O4) SSH: a chunk enters the channel buffer only while the transport is open: once
+          Transport.close() has returned (or is_active() was found false) paramiko's transport
+          thread feeds nothing more into the channel;
+     (O5) SSH: channel.recv(BUF_SIZE) returns data only out of that buffer, oldest chunk first,
+          one chunk per call, and returns b'' only when the buffer is empty;
      (O2) closing the socket / paramiko transport (or finding the transport already
           inactive) closes the connection towards the peer;
      (O3) join returns "not alive" only after the worker's run() has ended. *)
@@ -75,7 +79,10 @@ Inductive label :=
 | Dispatch (rid : option N)                   (* _dispatch_message; Some rid: the reply of request rid *)
 | CbRaise                                     (* parser or a listener callback raised *)
 | CbClose (rid : option N)                    (* like Dispatch, and one of the callbacks calls session.close() *)
-| ErrBroadcast | WorkerCloseCall | Exit.
+| ErrBroadcast | WorkerCloseCall | Exit
+(* environment, SSH only: paramiko's transport thread appends one chunk to the channel buffer
+   (n = number of NETCONF messages that chunk will complete when the worker parses it) *)
+| Arrive (n : nat).
 
 Record state := mk {
   tr : transport;
@@ -94,24 +101,27 @@ Record state := mk {
   cs : csphase;
   client_closed : bool;           (* ghost: a close() called by a client thread has returned *)
   callbacks_after_close : N;      (* ghost: listener invocations after that *)
-  sel_after_close : N             (* ghost: select calls begun with closing set and the handle closed *)
+  sel_after_close : N;            (* ghost: select calls begun with closing set and the handle closed *)
+  chan : list nat                 (* SSH: chunks buffered in paramiko's channel, oldest first; a chunk is what one
+                                     recv(BUF_SIZE) returns, represented by the number of messages it completes *)
 }.
 
 Definition init (t : transport) : state :=
-  mk t PFresh false false false false WNotStarted None [] [] [] [] [] CsIdle false 0 0.
+  mk t PFresh false false false false WNotStarted None [] [] [] [] [] CsIdle false 0 0 [].
 
 (* ---- field updates ---- *)
-Definition w_ph s x := mk (tr s) x (connected s) (closing s) (socket_open s) (peer_saw_eof s) (worker s) (cprog s) (pending s) (failed s) (answered s) (late s) (accepted_early s) (cs s) (client_closed s) (callbacks_after_close s) (sel_after_close s).
-Definition w_connected s x := mk (tr s) (ph s) x (closing s) (socket_open s) (peer_saw_eof s) (worker s) (cprog s) (pending s) (failed s) (answered s) (late s) (accepted_early s) (cs s) (client_closed s) (callbacks_after_close s) (sel_after_close s).
-Definition w_closing s x := mk (tr s) (ph s) (connected s) x (socket_open s) (peer_saw_eof s) (worker s) (cprog s) (pending s) (failed s) (answered s) (late s) (accepted_early s) (cs s) (client_closed s) (callbacks_after_close s) (sel_after_close s).
-Definition w_handle s (o e : bool) := mk (tr s) (ph s) (connected s) (closing s) o e (worker s) (cprog s) (pending s) (failed s) (answered s) (late s) (accepted_early s) (cs s) (client_closed s) (callbacks_after_close s) (sel_after_close s).
-Definition w_worker s x := mk (tr s) (ph s) (connected s) (closing s) (socket_open s) (peer_saw_eof s) x (cprog s) (pending s) (failed s) (answered s) (late s) (accepted_early s) (cs s) (client_closed s) (callbacks_after_close s) (sel_after_close s).
-Definition w_cprog s x := mk (tr s) (ph s) (connected s) (closing s) (socket_open s) (peer_saw_eof s) (worker s) x (pending s) (failed s) (answered s) (late s) (accepted_early s) (cs s) (client_closed s) (callbacks_after_close s) (sel_after_close s).
-Definition w_reqs s (p f a l e : list N) := mk (tr s) (ph s) (connected s) (closing s) (socket_open s) (peer_saw_eof s) (worker s) (cprog s) p f a l e (cs s) (client_closed s) (callbacks_after_close s) (sel_after_close s).
-Definition w_cs s x := mk (tr s) (ph s) (connected s) (closing s) (socket_open s) (peer_saw_eof s) (worker s) (cprog s) (pending s) (failed s) (answered s) (late s) (accepted_early s) x (client_closed s) (callbacks_after_close s) (sel_after_close s).
-Definition w_client_closed s x := mk (tr s) (ph s) (connected s) (closing s) (socket_open s) (peer_saw_eof s) (worker s) (cprog s) (pending s) (failed s) (answered s) (late s) (accepted_early s) (cs s) x (callbacks_after_close s) (sel_after_close s).
-Definition w_cb s x := mk (tr s) (ph s) (connected s) (closing s) (socket_open s) (peer_saw_eof s) (worker s) (cprog s) (pending s) (failed s) (answered s) (late s) (accepted_early s) (cs s) (client_closed s) x (sel_after_close s).
-Definition w_sel s x := mk (tr s) (ph s) (connected s) (closing s) (socket_open s) (peer_saw_eof s) (worker s) (cprog s) (pending s) (failed s) (answered s) (late s) (accepted_early s) (cs s) (client_closed s) (callbacks_after_close s) x.
+Definition w_ph s x := mk (tr s) x (connected s) (closing s) (socket_open s) (peer_saw_eof s) (worker s) (cprog s) (pending s) (failed s) (answered s) (late s) (accepted_early s) (cs s) (client_closed s) (callbacks_after_close s) (sel_after_close s) (chan s).
+Definition w_connected s x := mk (tr s) (ph s) x (closing s) (socket_open s) (peer_saw_eof s) (worker s) (cprog s) (pending s) (failed s) (answered s) (late s) (accepted_early s) (cs s) (client_closed s) (callbacks_after_close s) (sel_after_close s) (chan s).
+Definition w_closing s x := mk (tr s) (ph s) (connected s) x (socket_open s) (peer_saw_eof s) (worker s) (cprog s) (pending s) (failed s) (answered s) (late s) (accepted_early s) (cs s) (client_closed s) (callbacks_after_close s) (sel_after_close s) (chan s).
+Definition w_handle s (o e : bool) := mk (tr s) (ph s) (connected s) (closing s) o e (worker s) (cprog s) (pending s) (failed s) (answered s) (late s) (accepted_early s) (cs s) (client_closed s) (callbacks_after_close s) (sel_after_close s) (chan s).
+Definition w_worker s x := mk (tr s) (ph s) (connected s) (closing s) (socket_open s) (peer_saw_eof s) x (cprog s) (pending s) (failed s) (answered s) (late s) (accepted_early s) (cs s) (client_closed s) (callbacks_after_close s) (sel_after_close s) (chan s).
+Definition w_cprog s x := mk (tr s) (ph s) (connected s) (closing s) (socket_open s) (peer_saw_eof s) (worker s) x (pending s) (failed s) (answered s) (late s) (accepted_early s) (cs s) (client_closed s) (callbacks_after_close s) (sel_after_close s) (chan s).
+Definition w_reqs s (p f a l e : list N) := mk (tr s) (ph s) (connected s) (closing s) (socket_open s) (peer_saw_eof s) (worker s) (cprog s) p f a l e (cs s) (client_closed s) (callbacks_after_close s) (sel_after_close s) (chan s).
+Definition w_cs s x := mk (tr s) (ph s) (connected s) (closing s) (socket_open s) (peer_saw_eof s) (worker s) (cprog s) (pending s) (failed s) (answered s) (late s) (accepted_early s) x (client_closed s) (callbacks_after_close s) (sel_after_close s) (chan s).
+Definition w_client_closed s x := mk (tr s) (ph s) (connected s) (closing s) (socket_open s) (peer_saw_eof s) (worker s) (cprog s) (pending s) (failed s) (answered s) (late s) (accepted_early s) (cs s) x (callbacks_after_close s) (sel_after_close s) (chan s).
+Definition w_cb s x := mk (tr s) (ph s) (connected s) (closing s) (socket_open s) (peer_saw_eof s) (worker s) (cprog s) (pending s) (failed s) (answered s) (late s) (accepted_early s) (cs s) (client_closed s) x (sel_after_close s) (chan s).
+Definition w_sel s x := mk (tr s) (ph s) (connected s) (closing s) (socket_open s) (peer_saw_eof s) (worker s) (cprog s) (pending s) (failed s) (answered s) (late s) (accepted_early s) (cs s) (client_closed s) (callbacks_after_close s) x (chan s).
+Definition w_chan s x := mk (tr s) (ph s) (connected s) (closing s) (socket_open s) (peer_saw_eof s) (worker s) (cprog s) (pending s) (failed s) (answered s) (late s) (accepted_early s) (cs s) (client_closed s) (callbacks_after_close s) (sel_after_close s) x.
 
 (* ---- small decidable helpers ---- *)
 Definition cstep_eqb (a b : cstep) : bool :=
@@ -241,8 +251,17 @@ Definition step (s : state) (l : label) : option state :=
       match worker s with
       | WReading o =>
           match r with
-          | RData n => if o || is_ssh (tr s) then Some (w_worker s (after_dispatch n)) else None      (* (O1) *)
-          | REof => Some (w_worker s WAfterEof)
+          | RData n =>
+              if is_ssh (tr s) then
+                match chan s with                                                                (* (O5) *)
+                | c :: rest => if Nat.eqb c n then Some (w_chan (w_worker s (after_dispatch n)) rest) else None
+                | [] => None
+                end
+              else if o then Some (w_worker s (after_dispatch n)) else None                      (* (O1) *)
+          | REof =>
+              if is_ssh (tr s) then
+                match chan s with [] => Some (w_worker s WAfterEof) | _ :: _ => None end         (* (O5) *)
+              else Some (w_worker s WAfterEof)
           | RErr => Some (w_worker s WRaised)
           end
       | _ => None end
@@ -302,6 +321,9 @@ Definition step (s : state) (l : label) : option state :=
       | _ => None end
   | Exit =>
       match worker s with WErrDone true => Some (w_worker s WExited) | _ => None end
+  (* ---------------- environment (SSH channel) ---------------- *)
+  | Arrive n =>
+      if is_ssh (tr s) && socket_open s then Some (w_chan s (chan s ++ [n])) else None       (* (O4) *)
   end.
 
 (* run a label sequence: Some final state iff every label is accepted *)
@@ -334,6 +356,9 @@ Definition is_dispatch_label (l : label) : bool :=
 Definition is_callback_label (l : label) : bool :=
   match l with Dispatch _ | CbClose _ | ErrBroadcast => true | _ => false end.
 
+Definition is_select_begin (l : label) : bool := match l with SelectBegin => true | _ => false end.
+Definition is_arrive (l : label) : bool := match l with Arrive _ => true | _ => false end.
+
 (* upper bound on the number of non-dispatch worker steps left once the session is closed locally *)
 Definition wfuel (w : wpc) : nat :=
   match w with
@@ -353,3 +378,37 @@ Definition wfuel (w : wpc) : nat :=
   | WReading true => 17
   | WClosing rest (RDispatch _) => length rest + 17
   end.
+
+(* ---- SSH: the worker drains the channel buffer ---- *)
+(* loop iterations (select calls) the worker may still BEGIN without consuming a chunk first *)
+Definition sel_credit (w : wpc) : nat :=
+  match w with
+  | WNotStarted | WTop | WDispatching _ | WClosing _ (RDispatch _) => 1
+  | _ => 0
+  end.
+
+(* worker steps left, all of them (dispatches included), the buffered chunks apart *)
+Definition sfuel (w : wpc) : nat :=
+  match w with
+  | WExited => 0
+  | WErrDone true => 1
+  | WBreak => 2
+  | WClosing rest RExit => length rest + 2
+  | WErrDone false => 9
+  | WRaised => 10
+  | WAfterTimeout | WAfterEof => 11
+  | WReading _ => 13
+  | WReady => 14
+  | WSelecting => 15
+  | WTop => 16
+  | WNotStarted => 16
+  | WDispatching n => 16 + 8 * n
+  | WClosing rest (RDispatch n) => length rest + 17 + 8 * n
+  end.
+
+(* worker steps one buffered chunk costs: the rest of the iteration that reads it, its
+   dispatches (8 each: a callback may run a whole close()), and the next iteration up to the read *)
+Fixpoint chan_cost (l : list nat) : nat :=
+  match l with [] => 0 | c :: l' => 4 + 8 * c + chan_cost l' end.
+
+Definition smeasure (s : state) : nat := sfuel (worker s) + chan_cost (chan s).
